@@ -225,7 +225,12 @@ def typeInfoFunc (T : Table) (named : List Bool) (infos : List TypeInfo) (fn : F
   | some infos =>
   match fn.result with
   | some (.id id) =>
-    match T[id]? with
+    -- the result type itself is chased through `type`/`use` layers first (repaired in /repo: before the
+    -- repair only a result type that was *directly* a `result` was looked at)
+    match resolveTypeDefinitionId T (id + 1) id with
+    | none => none
+    | some rd =>
+    match T[rd]? with
     | none => none
     | some (.result _ (some (.id e))) =>
       match resolveTypeDefinitionId T (e + 1) e with
